@@ -153,11 +153,17 @@ CLAIMS = {
              "keeps `a` and re-sends its claim against any higher NAME (so the lowest NAME never leaves), ignores its own NAME; against a lower "
              "NAME a single-address CA goes cannot-claim announcing it from 254, an arbitrary-address-capable one announces a+1 and waits for a "
              "veto, neither reports the contested address any more; claim progress (immediate range operational at once, veto range after one "
-             "250 ms period); the compared value is exactly the sender's 64-bit NAME (C15 round trip).  Partial: uniqueness at quiescence and "
-             "settling over all schedules/latencies (incl. 0) are established by the network oracle on real stacks, not yet by a Lean theorem.",
+             "250 ms period); the compared value is exactly the sender's 64-bit NAME (C15 round trip); an AAC CA with no address left goes "
+             "cannot-claim (fix D28).  NETWORK LEVEL (Model/CaNet.lean: any number of nodes, per-receiver FIFO of claims, ANY interleaving of "
+             "timer firings, deliveries and requests for address claimed): invariant NetInv (for two nodes at one address with different "
+             "NAMEs a claim of one is on its way to the other) preserved by every event (step_inv, run_inv), hence c04_unique_at_quiescence — "
+             "from any network in which nobody has claimed yet, whenever all claims on the bus are handled, two nodes at the same address "
+             "(operational or waiting for a veto) have the same NAME; c04_at_kept_by_step — a node stays at its address through every event "
+             "except handling a claim for it from a lower NAME.  Partial: settling within bounded time and latency-0 re-entrancy are "
+             "established by the network oracle on real stacks; CAs started with claiming bypassed are outside the theorem.",
         note="Proved for the code as repaired by fix D10 (state before send). Oracle: 2-4 CAs, NAMEs differing in one field at a time, AAC mix, "
              "start/claim-delay grid around the veto window, latencies {0, 1, 5 ms}.",
-        technique="Lean 4 handler theorems over hand model with regenerated NAME codec; correspondence; network oracle incl. re-entrant delivery",
+        technique="Lean 4 handler theorems + network invariant by induction over events, hand model with regenerated NAME codec; correspondence; network oracle incl. re-entrant delivery",
         design="§8 C04"),
     'C05': dict(
         text="Proof (Lean 4): on the J1939-21 layer a PDU1 frame whose destination is neither global nor locally accepted — any PGN incl. TP "
